@@ -8,6 +8,7 @@ from typing import Dict, List, Optional, Tuple
 
 from harness.lib.core import VERIF, Ctx, lean_lock, run_driver, shrink_ops
 from harness.extract import power as x_power
+from harness.extract import request_schema as x_schema   # C05x's extractor, used read-only: the schematic request tree
 from harness.rigs import power as rig
 
 MANIFEST = {
@@ -32,7 +33,7 @@ MANIFEST = {
                  "tables/shapes and a differential rig",
     "design_ref": "5/C12",
 }
-MODULES = ["PrimaiteModel.Props.C12"]
+MODULES = ["PrimaiteModel.Props.C12", "PrimaiteModel.Props.C12Deep"]
 EXE = "drv_c12"
 TAIL = [{"op": "tick"}, {"op": "ping", "src": 1, "dst": 0}, {"op": "tick"}, {"op": "tick"}, {"op": "tick"}, {"op": "tick"},
         {"op": "ping", "src": 1, "dst": 0}, {"op": "ping", "src": 0, "dst": 1}]
@@ -58,8 +59,14 @@ def _diff_sig(case: dict, lines: List[str], impl: List[str], model: List[str], i
     w = lines[i].split() if 0 <= i < len(lines) else ["?"]
     op = w[0] + (":" + w[2] if w[0] == "req" and len(w) > 2 else "")
     cls = "?"
-    if w[0] in ("req", "tick", "in") and len(w) > 1 and w[1].isdigit():
+    if w[0] in ("req", "tick", "in", "api", "setdur", "setup") and len(w) > 1 and w[1].isdigit():
         cls = case["nodes"][int(w[1])]["cls"]
+    elif w[0] == "load" and len(w) > 1:
+        cls = w[1]
+    elif w[0] == "pingpath":
+        cls = case["nodes"][0]["cls"]
+    if w[0] == "api" and len(w) > 2:
+        op = "api:" + w[2]
     return {"kind": "model-vs-impl", "op": op, "field": _field_of_diff(impl[i], model[i]) if i < min(len(impl), len(model)) else "length",
             "cls": cls}
 
@@ -115,6 +122,7 @@ def _run_impl_all(cases: List[dict], workers: int):
 def run(ctx: Ctx):
     with lean_lock():
         ctx.extract("Power", x_power.emit)
+        ctx.extract("RequestSchema", x_schema.emit)
         ctx.prove(MODULES, exes=[EXE], clean=False, leanchecker=ctx.thorough)
     ctx.cov["rule"] = ("case = (node classes, start-up/shut-down durations, op sequence over shutdown/startup/reset requests, ticks, "
                        "pings, other node-level requests, frame injections); every answer, every operating_state assignment and "
@@ -129,6 +137,15 @@ def run(ctx: Ctx):
         from primaite.simulator.network.hardware.node_operating_state import NodeOperatingState
         ctx.oblige("gen:stateValues = list(NodeOperatingState)", "correspondence",
                    [(m.name, m.value) for m in NodeOperatingState] == [("ON", 1), ("OFF", 2), ("BOOTING", 3), ("SHUTTING_DOWN", 4)])
+        reg, kinds = rig.live_inventories()
+        gen_nodes = {d: (n, inst) for n, d, inst, _ in x_power.node_inventory() if d}
+        ctx.oblige("gen:nodeClasses = Node._registry (discriminator, class, instantiable)", "correspondence", gen_nodes == reg,
+                   json.dumps({"gen": gen_nodes, "live": reg})[:2000])
+        driven = sorted(n for n, (c, inst) in reg.items() if inst)
+        ctx.oblige("rig drives every instantiable node class", "correspondence", driven == sorted(rig.ALL_CLASSES),
+                   json.dumps({"instantiable": driven, "driven": sorted(rig.ALL_CLASSES)}))
+        ctx.oblige("rig drives every interface class a node carries", "correspondence", kinds == sorted(rig.NIC_KIND),
+                   json.dumps({"carried": kinds, "driven": sorted(rig.NIC_KIND)}))
     except Exception as e:
         ctx.oblige("gen:classTables = live request managers", "correspondence", False, f"{type(e).__name__}: {e}")
 
@@ -149,13 +166,33 @@ def run(ctx: Ctx):
             for k, c in enumerate(rig.exhaustive_pair(depth_all + 1, (u, d, 1, 1))):
                 c["ops"] += [dict(o) for o in TAIL]
                 cases.append((f"exh{depth_all + 1}:{u},{d}:{k}", c))
-    # --- random: two hosts, then the six-class network
+    # --- every node class under test between peers: bounded-exhaustive over the class's own 7-letter alphabet
+    cls_depth = ctx.scale(2, 3)
+    cls_durs = all_durs if ctx.thorough else [(u, d) for (u, d) in all_durs if u != 2 and d != 2]   # quick: {0,1,3}²
+    for cls in rig.ALL_CLASSES:
+        if cls == "computer":
+            continue  # the pair family above
+        for (u, d) in cls_durs:
+            for k, c in enumerate(rig.exhaustive_cls(cls, cls_depth, u, d)):
+                cases.append((f"clsexh{cls_depth}:{cls}:{u},{d}:{k}", c))
+        for k, c in enumerate(rig.exhaustive_cls(cls, cls_depth + 1, 0, 0)):
+            cases.append((f"clsexh{cls_depth + 1}:{cls}:0,0:{k}", c))
+    # --- random: two hosts, the six-class network, every class (requests only / with direct API calls and duration changes),
+    #     whole power cycles from assorted software states, scenario files through the loader
     for k in range(ctx.scale(400, 6000)):
         cases.append((f"pair:{k}", rig.gen_random_pair(rng, ctx.scale(30, 60))))
     for k in range(ctx.scale(150, 2500)):
         cases.append((f"scen:{k}", rig.gen_random_scenario(rng, ctx.scale(30, 60))))
+    for k in range(ctx.scale(320, 6000)):
+        cases.append((f"cls:{k}", rig.gen_random_cls(rng, ctx.scale(30, 60), cls=rig.ALL_CLASSES[k % len(rig.ALL_CLASSES)])))
+    for k in range(ctx.scale(240, 4000)):
+        cases.append((f"clsapi:{k}", rig.gen_random_cls(rng, ctx.scale(30, 60), cls=rig.ALL_CLASSES[k % len(rig.ALL_CLASSES)], api=True)))
+    for k in range(ctx.scale(200, 3000)):
+        cases.append((f"cycle:{k}", rig.gen_cycle(rng)))
+    for k in range(ctx.scale(120, 1500)):
+        cases.append((f"load:{k}", rig.load_case(rng, ctx.scale(16, 40))))
 
-    workers = max(1, min(14, (os.cpu_count() or 2) - 2))
+    workers = int(os.environ.get("C12_WORKERS", "0")) or max(1, min(14, (os.cpu_count() or 2) - 2))
     results = _run_impl_all([c for _, c in cases], workers)
     lines_all: List[str] = []
     bounds = []
@@ -184,13 +221,28 @@ def run(ctx: Ctx):
                 raise RuntimeError(f"driver rejected line {q!r}")
             if w[0] == "req":
                 ctx.count(f"req:{w[2]}:{m.split()[0]}")
+                ctx.count(f"class:{case['nodes'][int(w[1])]['cls']}:req")
                 if "h=" in m and " h=- " not in m:
                     ctx.count("trace:" + m.split()[1][2:])
             elif w[0] == "tick":
                 if " h=- " not in m:
                     ctx.count("trace:" + m.split()[1][2:])
-            elif w[0] in ("ping", "in"):
+                ctx.count(f"class:{case['nodes'][int(w[1])]['cls']}:tick")
+                st_after = next((t[3:] for t in m.split() if t.startswith("st=")), "?")
+                work_tags = "".join(sorted({t[:2] for t in m.split()[2][2:].split(",") if t}))
+                ctx.count(f"work:{'ON' if st_after == 'ON' else 'not-ON'}:{work_tags or 'none'}")
+            elif w[0] in ("ping", "in", "pingpath"):
                 ctx.count(f"{w[0]}:{m}")
+            elif w[0] == "api":
+                ctx.count(f"api:{w[2]}")
+                if " h=- " not in m:
+                    ctx.count("apitrace:" + m.split()[1][2:])
+            elif w[0] == "load":
+                ctx.count(f"load:{w[1]}:declared={w[2]}:{m.split()[2][3:]}")
+            elif w[0] == "setup":
+                ctx.count("setup:" + (m.split()[1][2:] if " h=- " not in m else "no-assignment"))
+            elif w[0] == "setdur":
+                ctx.count("setdur:" + ("neg" if "-" in w[2] + w[3] else "huge" if len(w[2]) > 6 or len(w[3]) > 6 else "small"))
         i = _first_diff(lines, impl, model)
         if i < 0 and not oracle:
             agree += 1
